@@ -584,7 +584,8 @@ class TriggerReader:
         rest = [f for f in fs if not any(f is x for x in q)]
         if len(q) == 1 and len(rest) == 1:
             return ('ok', rest[0], q[0])
-        if all(_is_leafish(f) and (f.kind == 'lit' or _resolve(f, alias, self.declared, self.prog) is not None) for f in fs):
+        raw = [f for f in _factors(use) if not (f.kind == 'lit' and f.value == 1)]
+        if all(_is_leafish(f) and (f.kind == 'lit' or _resolve(f, alias, self.declared, self.prog) is not None) for f in raw):
             if not q:
                 return ('bad', f'`{text(use)}` is not multiplied by the quantity of the {"inserted" if self.kind == "insert" else "attempt_resources"} row')
             return ('bad', f'`{text(use)}` is not (duration difference) x (quantity): factors {[text(f) for f in fs]}')
@@ -775,7 +776,8 @@ def check_trigger(ctx: Ctx, prog: sf.SqlProgram, r: sf.Routine, kind: str) -> No
             ctx.check(ok3, 'R3', cons + '::rows billed', f'the rows billed are not exactly the attempt_resources of (NEW.batch_id, NEW.job_id, NEW.attempt_id): FROM {text(sel.frm)} WHERE {text(sel.where) if sel.where is not None else None}',
                       r.file, r.line_of(st))
         else:
-            ctx.check(sel is None or tbl == 'aggregated_job_group_resources_v3', 'R3', cons + '::single row', 'the insert trigger bills more than the inserted resource row', r.file, r.line_of(st))
+            ctx.check((sel is None or tbl == 'aggregated_job_group_resources_v3') and src_table not in alias.values(), 'R3', cons + '::single row',
+                      'the insert trigger bills more than the inserted resource row' + (f': it selects FROM {text(sel.frm)}, i.e. every resource row the attempt has so far' if sel is not None else ''), r.file, r.line_of(st))
     # ---- R1: the billed duration, compared as a value ----------------------------------------------------------------------------
     check_duration(ctx, tr, cons0, durations)
 
